@@ -12,8 +12,9 @@ costs nothing, every other edge costs one step (`costS`; with `--hidden` every e
 `WPath G (costS G hidden) a b k` is a non-empty dependency path from `a` to `b` of cost `k`.
 
 * `deps` / `revdeps` with a level limit are SOUND for every graph (everything reported is within the limit)
-  but NOT COMPLETE: four concrete witnesses below (two root causes per query), each replayed on the real code
-  from corpus/C23/known-*.ops.
+  but NOT COMPLETE: three concrete witnesses below, each replayed on the real code from corpus/C23/known-*.ops.
+  A fourth root cause (`isSameTarget` resolved the parent through the graph, so sub-targets of a rule that is not a
+  target never counted as one rule) was repaired in /repo; its shape is an `example` below and corpus/C23/fixed-*.ops.
 * `somepath` is sound and complete for every graph (cyclic ones included), the per-target memo included.
 
 The theorems are about the models instantiated with the level bookkeeping read from /repo on this run
@@ -32,7 +33,7 @@ def FactsOK : Bool :=
   C23.depsMark == "DONE[PROVIDED] = true" &&
   C23.depsDepIs == "STATE.Graph.TargetOrDie(PROVIDED)" &&
   C23.depsBranchConds == ["HIDDEN || !DEP.HasParent()", "DEP.Label.Parent() == TARGET.Label.Parent()", "else"] &&
-  C23.depsBranchPrints == ["print@+0", "silent", "silent"] &&
+  C23.depsBranchPrints == ["print@+0", "silent", "silent"] && C23.depsAdjustBranch == [] &&
   -- revdeps: FIFO with dedup on push, depth bookkeeping, gate, report, isSameTarget
   C23.revPush == ["!present", "PushBack", "Front"] &&
   C23.revDepthInit == "NEXT.DEPTH" &&
@@ -43,8 +44,7 @@ def FactsOK : Bool :=
   C23.revReportBranches == ["R.hidden || !T.Label.IsHidden()", "PARENT := T.Parent(state.Graph); PARENT != nil"] &&
   C23.revReportWhat == ["ret[T]", "ret[PARENT]"] &&
   C23.revPushCall == "R.os.Push(&node{ target: T, DEPTH: DEPTH, })" &&
-  C23.isSameTarget == ["if LHS == RHS { return true }", "if LHS.Label.IsHidden() { LHS = LHS.Parent(GRAPH) }",
-    "if RHS.Label.IsHidden() { RHS = RHS.Parent(GRAPH) }", "return LHS == RHS && LHS != nil"] &&
+  C23.isSameTarget == ["if LHS == RHS { return true }", "return LHS.Label.Parent() == RHS.Label.Parent()"] &&
   C23.revInitDepths == ["0", "0"] && C23.revChildCond == "!HIDDEN && !label.IsHidden()" &&
   -- somepath: guard chain, marking before the loop, iteration, prepending, both directions, memo per target2
   C23.spGuards == ["T1.Label == T2.Label => return []core.BuildLabel{T1.Label}",
@@ -145,14 +145,14 @@ def revReported (G : Graph) (lim : Limit) (hidden : Bool) (roots : List Nat) : L
 def WithinRev (G : Graph) (lim : Limit) (hidden : Bool) (roots : List Nat) (t : Nat) : Prop :=
   ∃ src, IsSource G hidden roots src ∧ ∃ k, (∀ N, lim = some N → k ≤ N) ∧ WPath G (costS G hidden) t src k
 
-/-- Soundness (full, for well-formed labels): everything `revdeps` reports stands for a target (itself, or one
-of its hidden sub-targets) that depends on the query within the limit. -/
-theorem C23_revdeps_sound (G : Graph) (hw : LabelsWF G) (lim : Limit) (hidden : Bool) (roots : List Nat) (x : Nat)
+/-- Soundness (full): everything `revdeps` reports stands for a target (itself, or one of its hidden sub-targets) that
+depends on the query within the limit. -/
+theorem C23_revdeps_sound (G : Graph) (lim : Limit) (hidden : Bool) (roots : List Nat) (x : Nat)
     (h : x ∈ revReported G lim hidden roots) :
     ∃ t, report G hidden t = some x ∧ WithinRev G lim hidden roots t := by
   unfold revReported at h
   rw [cfg_std] at h
-  exact findRevdeps_sound hw lim hidden roots x h
+  exact findRevdeps_sound lim hidden roots x h
 
 /-- The loop bound of the `findRevdeps` model is never reached. -/
 theorem C23_revdeps_fuel (G : Graph) (lim : Limit) (hidden : Bool) (roots : List Nat)
@@ -168,7 +168,7 @@ theorem C23_revdeps_complete_unlimited_partial (G : Graph) (roots : List Nat) (h
 
 /-- The property as stated for `revdeps` (completeness half): every target that depends on the query through at
 least one real step within the limit is reported (as itself or as its rule). -/
-def RevComplete : Prop := ∀ (G : Graph), LabelsWF G → ∀ (lim : Limit) (hidden : Bool) (roots : List Nat) (t x : Nat),
+def RevComplete : Prop := ∀ (G : Graph) (lim : Limit) (hidden : Bool) (roots : List Nat) (t x : Nat),
   t ∈ G.nodes → report G hidden t = some x →
   (∃ src, IsSource G hidden roots src ∧ ∃ k, 1 ≤ k ∧ (∀ N, lim = some N → k ≤ N) ∧ WPath G (costS G hidden) t src k) →
   x ∈ revReported G lim hidden roots
@@ -200,32 +200,19 @@ theorem C23_witness_revdeps_fifo :
   · decide
   · intro N hN; cases hN; decide
 
-/-- witness 4 (known finding `revdeps-orphan-subtargets-cost-one`): y→`_g#b`→`_g#a`→x where no rule `g` exists,
-level 2 from x.  `isSameTarget` resolves the parent through the graph, so the edge between the two sub-targets of
-the missing rule costs a step here (while `deps` treats it as free). -/
+/-- the shape of the repaired finding `revdeps-orphan-subtargets-cost-one` (fixed): y→`_g#b`→`_g#a`→x where no rule `g`
+exists, level 2 from x.  `isSameTarget` compares parent labels, so the edge between the two sub-targets is free (as it is
+for `deps`) and `y` is reported. -/
 def gW4 : Graph := { nodes := [1, 2, 0, 3], adj := fun | 1 => [0] | 2 => [1] | 3 => [2] | _ => [],
                      pl := fun | 1 => 4 | 2 => 4 | n => n, hid := fun | 1 => true | 2 => true | _ => false }
 
-theorem gW4_wf : LabelsWF gW4 := by
-  intro t h
-  unfold gW4 at h ⊢
-  simp only at h ⊢
-  split at h <;> simp_all
-
-theorem C23_witness_revdeps_orphan :
-    report gW4 false 3 = some 3 ∧
-    (∃ src, IsSource gW4 false [0] src ∧ ∃ k, 1 ≤ k ∧ (∀ N, some 2 = some N → k ≤ N) ∧ WPath gW4 (costS gW4 false) 3 src k) ∧
-    3 ∉ revReported gW4 (some 2) false [0] := by
-  refine ⟨by decide, ⟨0, Or.inl (by simp), _, ?_, ?_,
-    .cons (b := 2) (by decide) (.cons (b := 1) (by decide) (.single (by decide)))⟩, by decide⟩
-  · decide
-  · intro N hN; cases hN; decide
+example : 3 ∈ revReported gW4 (some 2) false [0] := by decide
 
 /-- The property as stated does not hold for `revdeps`. -/
 theorem C23_revdeps_not_complete : ¬ RevComplete := by
   intro h
   obtain ⟨hr, hw, hn⟩ := C23_witness_revdeps_fifo
-  exact hn (h gW3 gW3_wf (some 3) false [0] 4 4 (by decide) hr hw)
+  exact hn (h gW3 (some 3) false [0] 4 4 (by decide) hr hw)
 
 /-! ## somepath -/
 
